@@ -9,6 +9,7 @@ import GffModel.Str
 import GffModel.Bins
 import GffModel.Helpers
 import GffModel.Grammar
+import GffModel.Iter
 
 namespace GffModel
 namespace Proto
@@ -111,6 +112,21 @@ def decSpec? : List String → Option Grammar.LineSpec
            attrs := a.map (fun (k, v) => { key := k, vals := v }), extra := ← decList? extra }
   | _ => none
 
+/-- the transform zoo shared with the harness (harness/transforms.py) -/
+def transformOf : String → Option (Option (Feature → Option Feature))
+  | "none" => some none
+  | "id" => some (some (fun f => some f))
+  | "dropexon" => some (some (fun f => if f.ftype = "exon".toList then none else some f))
+  | "mut" => some (some (fun f => some { f with source := "tr".toList, attrs := Dict.set f.attrs "tr".toList ["1".toList] }))
+  | "dropmut" => some (some (fun f =>
+      if f.ftype = "exon".toList then none
+      else some { f with source := "tr".toList, attrs := Dict.set f.attrs "tr".toList ["1".toList] }))
+  | "dropall" => some (some (fun _ => none))
+  | _ => none
+
+def encFeatures (fs : List Feature) : String :=
+  if fs.isEmpty then "_" else " / ".intercalate (fs.map (encFeature · false))
+
 /-- stateless commands -/
 def stepPure (ws : List String) : Option String :=
   match ws with
@@ -147,6 +163,24 @@ def stepPure (ws : List String) : Option String :=
   | "choose" :: rest => do
       let fs ← decChoose? rest
       pure (encDialect (Helpers.chooseDialect fs))
+  | ["file", cl, d, tr, lines] => do
+      let cl ← (parseIntW cl).map Int.toNat; let d ← decOptDialect? d; let tr ← transformOf tr
+      let lines ← decList? lines
+      match Iter.runFile lines cl d tr with
+      | .ok (d, fs, dirs) => pure s!"ok {encDialect d} {encList dirs} {fs.length} {encFeatures fs}"
+      | .error e => pure (encErr e)
+  | ["feats", cl, d, tr, lines] => do
+      let cl ← (parseIntW cl).map Int.toNat; let d ← decOptDialect? d; let tr ← transformOf tr
+      let lines ← decList? lines
+      match lines.mapM (fun l => featureFromLine l none true false) with
+      | .ok src =>
+        let (d, fs) := Iter.runFeatures src cl d tr
+        pure s!"ok {encDialect d} {fs.length} {encFeatures fs}"
+      | .error e => pure (encErr e)
+  | ["classify", line] => do
+      let l ← Str.decode? line
+      pure (match Iter.classify l with
+        | .fastaStart => "fasta" | .directive s => "directive " ++ Str.encode s | .skip => "skip" | .feature => "feature")
   | ["int", s] => do
       let s ← Str.decode? s
       pure (match Str.parseInt? s with | some i => toString i | none => "err ValueError")
